@@ -244,9 +244,9 @@ func main() {
 
 	// ---- emit
 	var sb strings.Builder
-	sb.WriteString("import Model.HierShape\n")
+	sb.WriteString("import Model.HierShape\nimport Model.HierNames\n")
 	sb.WriteString("/-! The shape of the walks over the class hierarchy (data/type_class.go, data/value_class.go, node/class.go, node/like.go,\nnode/call_*_method.go), regenerated by extract/c08. -/\n")
-	sb.WriteString("namespace Generated.C08Walks\nopen Model.HierShape\n\n")
+	sb.WriteString("namespace Generated.C08Walks\nopen Model.HierShape\nopen Model.Hier (NameTest NameKind)\n\n")
 	list := func(name, ty string, items []string) {
 		sb.WriteString(fmt.Sprintf("def %s : List %s :=\n  [", name, ty))
 		sb.WriteString(strings.Join(items, ",\n    "))
@@ -289,6 +289,13 @@ func main() {
 	}
 	list("nodeWrites", "NodeWrite", items)
 	items = nil
+	names := analyseNames(repo)
+	for _, n := range names {
+		items = append(items, n.lean())
+	}
+	list("nameTests", "NameTest", items)
+	items = nil
+	items = nil
 	for _, n := range notes {
 		items = append(items, leanStr(n))
 	}
@@ -298,8 +305,8 @@ func main() {
 		fmt.Fprintln(os.Stderr, err)
 		os.Exit(1)
 	}
-	fmt.Printf("c08: %d worklist, %d recursive walk, %d chain loops, %d deciders, %d routes, %d node writes, %d notes\n",
-		len(ws), len(rs), len(cs), len(ds), len(routes), len(writes), len(notes))
+	fmt.Printf("c08: %d worklist, %d recursive walk, %d chain loops, %d deciders, %d routes, %d node writes, %d name tests, %d notes\n",
+		len(ws), len(rs), len(cs), len(ds), len(routes), len(writes), len(names), len(notes))
 	for _, n := range notes {
 		fmt.Println("  note: " + n)
 	}
